@@ -18,6 +18,7 @@ var authLists = []string{"", "PLAIN LOGIN", "CRAM-MD5 SCRAM-SHA-256 SCRAM-SHA-1"
 
 type c07dims struct {
 	policy, auth, host, adv, stReply, hs, authList int
+	ssl int // 1: WithSSL on top of the custom dial function (which hands out a connection without TLS)
 }
 
 func (d c07dims) scenario() *DialScenario {
@@ -31,6 +32,7 @@ func (d c07dims) scenario() *DialScenario {
 		caps = append(caps, "AUTH "+authLists[d.authList])
 	}
 	sc.Caps = caps
+	sc.UseSSL = d.ssl == 1
 	stReplies := []SrvAction{{Kind: "ok"}, {Kind: "reply", Code: 454, Text: "4.7.0 TLS not available"}, {Kind: "reply", Code: 554, Text: "5.7.0 no"}, {Kind: "garbage"}}
 	hsKinds := []SrvAction{{Kind: "ok"}, {Kind: "tlsbad"}, {Kind: "tlsbad"}, {Kind: "garbage"}}
 	if d.hs == 2 {
@@ -90,7 +92,7 @@ func oracleC07(c *Ctx, sc *DialScenario, run *DialRun) {
 				continue
 			}
 			v := verbOf(e.Line)
-			if sc.Policy == 0 && v != "EHLO" && v != "HELO" && v != "STARTTLS" && v != "QUIT" {
+			if sc.Policy == 0 && !sc.UseSSL && v != "EHLO" && v != "HELO" && v != "STARTTLS" && v != "QUIT" {
 				c.Violate("c07-cleartext-command", fmt.Sprintf("mandatory TLS: %q was sent before a TLS handshake completed", e.Line), sc)
 			}
 			if v == "AUTH" && sc.AuthType == "AUTODISCOVER" {
@@ -219,10 +221,21 @@ func init() {
 										if st > 0 && hs > 0 {
 											continue // no handshake after a refused STARTTLS
 										}
-										all = append(all, c07dims{p, a, h, adv, st, hs, al})
+										all = append(all, c07dims{p, a, h, adv, st, hs, al, 0})
 									}
 								}
 							}
+						}
+					}
+				}
+			}
+			// WithSSL on top of the custom dial function: no STARTTLS dialogue, the connection is what the dial function
+			// returned (clear text here): the password clauses apply unchanged
+			for p := 0; p < 3; p++ {
+				for a := range allAuthTypes {
+					for h := 0; h < 4; h++ {
+						for al := range authLists {
+							all = append(all, c07dims{policy: p, auth: a, host: h, adv: 1, authList: al, ssl: 1})
 						}
 					}
 				}
@@ -232,13 +245,28 @@ func init() {
 				n = 1500
 			}
 			c.rep.Exhaustive = c.Thorough()
+			// always: auto-discovery with WithSSL on the caller's own (clear text) transport, every host and AUTH list
+			for p := 0; p < 3 && !c.Thorough(); p++ {
+				for h := 0; h < 4; h++ {
+					for al := range authLists {
+						d := c07dims{policy: p, auth: 1, host: h, adv: 1, authList: al, ssl: 1}
+						sc := d.scenario()
+						if run := runDialCase(c, sc, fmt.Sprintf("policy=%d:hs=0:st=0:ssl=1", p), true); run != nil {
+							oracleC07(c, sc, run)
+						}
+					}
+				}
+			}
 			for i := 0; i < n; i++ {
 				d := all[i%len(all)]
 				if !c.Thorough() {
 					d = all[c.Rng.Intn(len(all))]
 				}
+				if !c.Thorough() && i%8 == 7 {
+					d = all[len(all)-1-c.Rng.Intn(3*len(allAuthTypes)*4*len(authLists))]
+				}
 				sc := d.scenario()
-				run := runDialCase(c, sc, fmt.Sprintf("policy=%d:hs=%d:st=%d", d.policy, d.hs, d.stReply), d.adv == 1 || d.authList > 0)
+				run := runDialCase(c, sc, fmt.Sprintf("policy=%d:hs=%d:st=%d:ssl=%d", d.policy, d.hs, d.stReply, d.ssl), d.adv == 1 || d.authList > 0)
 				if run != nil {
 					oracleC07(c, sc, run)
 				}
@@ -282,6 +310,9 @@ func init() {
 			for i := 0; i < n; i++ {
 				r := c.Rng
 				d := c07dims{policy: r.Intn(3), auth: r.Intn(len(allAuthTypes)), host: r.Intn(4), adv: r.Intn(2), authList: r.Intn(len(authLists))}
+				if r.Chance(15) {
+					d.ssl = 1
+				}
 				sc := d.scenario()
 				clean := RunDial(sc)
 				if clean.Client != nil && clean.Err == nil {
